@@ -59,54 +59,34 @@ def witnessOrder (g : Graph) (cfg : Cfg) (uniq obs inited : List Mod) : List Mod
         go fuel (placed ++ [best])
   go uniq.length []
 
+/-- the model (`initModuleT`, which keeps the state at the moment an error is returned), run with the
+reconstructed iteration orders: (call log, result, keys of the service map). -/
 def runInit (g : Graph) (cfg : Cfg) (targets obs : List Mod) : String × String × String :=
   let fuel := g.n + 2
-  let rec go (ts : List Mod) (st : InitState) : Except InitErr InitState :=
+  let rec go (ts : List Mod) (st : InitState) : InitState × Option InitErr :=
     match ts with
-    | [] => .ok st
+    | [] => (st, none)
     | t :: rest =>
       let uniq := match listDeps g fuel t with
         | some d => C18.dedup d
         | none => []
       let w := witnessOrder g cfg uniq obs st.inited
-      match initModule g cfg fuel (fun _ => w) t st with
-      | .error e => .error e
-      | .ok st' => go rest st'
+      match initModuleT g cfg fuel (fun _ => w) t st with
+      | (st', some e) => (st', some e)
+      | (st', none) => go rest st'
   match go targets {} with
-  | .ok st => (showNats st.log, "ok", showNats (st.svcs.mergeSort))
-  | .error .unrecognised => ("?", "unrecognised", "-")
-  | .error (.initFailed _) => ("?", "initerr", "-")
-  | .error .crash => ("?", "crash", "-")
+  | (st, none) => (showNats st.log, "ok", showNats (st.svcs.mergeSort))
+  | (st, some (.unrecognised t)) => (showNats st.log, s!"unrecognised:{t}", "-")
+  | (st, some (.initFailed m)) => (showNats st.log, s!"initerr:{m}", "-")
+  | (st, some .crash) => (showNats st.log, "crash", "-")
 
-/-- replay until the error to obtain the model's call log in the error case as well. -/
-def runInitLog (g : Graph) (cfg : Cfg) (targets obs : List Mod) : String :=
-  let fuel := g.n + 2
-  let rec go (ts : List Mod) (st : InitState) : List Mod :=
-    match ts with
-    | [] => st.log
-    | t :: rest =>
-      if !g.has t then st.log else
-      let uniq := match listDeps g fuel t with
-        | some d => C18.dedup d
-        | none => []
-      let w := witnessOrder g cfg uniq obs st.inited
-      -- the loop of initModule, keeping the log on error
-      let rec loop (l : List Mod) (st : InitState) : InitState × Bool :=
-        match l with
-        | [] => (st, true)
-        | n :: r =>
-          if st.inited.contains n then loop r st
-          else if cfg.hasInit.getD n false then
-            let st := { st with log := st.log ++ [n] }
-            if cfg.initErr.getD n false then (st, false)
-            else loop r { st with inited := st.inited ++ [n] }
-          else loop r { st with inited := st.inited ++ [n] }
-      match orderedDeps g fuel (fun _ => w) t with
-      | none => st.log
-      | some deps =>
-        let (st', ok) := loop (deps ++ [t]) st
-        if ok then go rest st' else st'.log
-  showNats (go targets {})
+def optsOf (c : Char) : List ModOpt :=
+  match c with
+  | '1' => [.userInvisible]
+  | '2' => [.userInvisibleTargetable]
+  | '3' => [.userInvisible, .userInvisibleTargetable]
+  | '4' => [.userInvisibleTargetable, .userInvisible]
+  | _ => []
 
 def posOf (l : List Nat) (x : Nat) : Nat := (l.idxOf? x).getD l.length
 
@@ -130,26 +110,60 @@ def judgeInit (g : Graph) (cfg : Cfg) (targets obs : List Mod) (result : String)
     let wantKeys := (needed.filter fun x => cfg.hasInit.getD x false && cfg.hasSvc.getD x false).mergeSort
     if keys != wantKeys then bad := bad ++ ["service-map-keys"]
     if targets.any (fun t => !g.has t) then bad := bad ++ ["unknown-target-accepted"]
+    if obs.any fun x => cfg.initErr.getD x false then bad := bad ++ ["failing-init-ignored"]
+  match result.splitOn ":" with
+  | ["initerr", ms] =>
+    -- the error names the module whose initFn failed: it was the last call, it does fail, everything it
+    -- depends on was initialised before, nothing that depends on it was
+    let m := natOf ms
+    if obs.getLast? != some m then bad := bad ++ ["error-does-not-name-last-call"]
+    if !(cfg.initErr.getD m false) then bad := bad ++ ["error-names-module-that-did-not-fail"]
+    if (obs.dropLast).any fun x => cfg.initErr.getD x false then bad := bad ++ ["continued-after-failed-init"]
+    if (reach g m).any fun d => cfg.hasInit.getD d false && !obs.contains d then bad := bad ++ ["failed-module-before-its-dependency"]
+    if obs.any fun x => (reach g x).contains m then bad := bad ++ ["dependant-of-failed-module-initialised"]
+    if !keys.isEmpty then bad := bad ++ ["services-returned-with-error"]
+  | ["unrecognised", ts] =>
+    let t := natOf ts
+    if g.has t then bad := bad ++ ["registered-target-unrecognised"]
+    if targets.find? (fun x => !g.has x) != some t then bad := bad ++ ["error-does-not-name-first-unknown-target"]
+    -- the targets before it were initialised completely
+    if needed.any fun x => cfg.hasInit.getD x false && !obs.contains x then bad := bad ++ ["needed-module-not-initialised"]
+  | ["ok"] => pure ()
+  | _ => bad := bad ++ ["unexpected-result:" ++ result]
   return bad
 
 def handleInit (f : List String) : String × String × String :=
   match f with
-  | [gc, ts, obsS, result, keysS] =>
+  | [gc, ts, obsS, result, keysS, flagsS] =>
     match gc.splitOn ";" with
-    | [n, deps, hi, ie, hs] =>
+    | [n, deps, hi, ie, hs, op] =>
       let g := parseGraph n deps
       let cfg : Cfg := { hasInit := bitsOf hi, initErr := bitsOf ie, hasSvc := bitsOf hs }
+      let opts : List (List ModOpt) := if op == "-" then List.replicate g.n [] else op.toList.map optsOf
       let targets := listOfNat ts
       let obs := listOfNat obsS
       let keys := listOfNat keysS
-      let (_, mres, mkeys) := runInit g cfg targets obs
-      let mlog := runInitLog g cfg targets obs
-      let model := [mlog, mres, if mres == "ok" then mkeys else "-"]
-      let diff := if model == [obsS, result, keysS] then "-" else "model=" ++ " ".intercalate model
+      let (mlog, mres, mkeys) := runInit g cfg targets obs
+      let flags := (opts.map applyOpts)
+      let mflags := showNats (userVisibleModules opts) ++ ";" ++
+        (if flags.isEmpty then "-" else String.ofList (flags.map fun p => if p.1 then '1' else '0')) ++ ";" ++
+        (if flags.isEmpty then "-" else String.ofList (flags.map fun p => if p.2 then '1' else '0')) ++ ";1"
+      let model := [mlog, mres, mkeys, mflags]
+      let diff := if result.startsWith "add-rejected" then "-"
+        else if model == [obsS, result, keysS, flagsS] then "-" else "model=" ++ " ".intercalate model
       let j := if result.startsWith "add-rejected" then ["dag-edge-rejected"] else judgeInit g cfg targets obs result keys
+      -- flags: a user-visible module is targetable; nothing is said about unregistered modules
+      let j := match flagsS.splitOn ";" with
+        | [_, vb, tb, sorted] =>
+          let bad := (List.zip vb.toList tb.toList).any fun p => p.1 == '1' && p.2 == '0'
+          j ++ (if bad then ["visible-but-not-targetable"] else []) ++ (if sorted != "1" then ["visible-names-not-sorted"] else [])
+        | ["-"] => j
+        | _ => j ++ ["unregistered-module-has-flags"]
       let judge := if j.isEmpty then "-" else ",".intercalate j
       let nedges := (g.deps.map (·.length)).foldl (· + ·) 0
-      let tags := s!"k=init n={g.n} edges={min nedges 12} targets={min targets.length 4} inits={min obs.length 12} res={result} partial={cfg.hasInit.contains false || cfg.hasSvc.contains false}"
+      let resClass := (result.splitOn ":").headD result
+      let failPos := if resClass == "initerr" then s!" failpos={min obs.length 6}" else ""
+      let tags := s!"k=init n={g.n} edges={min nedges 12} targets={min targets.length 4} inits={min obs.length 12} res={resClass}{failPos} partial={cfg.hasInit.contains false || cfg.hasSvc.contains false} opts={op != "-"}"
       (diff, judge, tags)
     | _ => ("bad-graph", "-", "-")
   | _ => ("bad-fields", "-", "-")
